@@ -175,8 +175,10 @@ structure Lawful (D : DS σ) (V : σ → List Nat → Prop) (W : σ → Nat → 
   `Intersection::seek` and the out-of-horizon branch of `BufferedUnionScorer::seek`) -/
   wseek : ∀ {s t0 l t}, W s t0 l → t0 ≤ t → D.doc s ≤ t → t ≤ TERMINATED →
     V (D.seek t s) (Spec.seek t l)
-  /-- `seek_danger t` from a valid state (any `t`; the upper bound is promised for `doc ≤ t`) -/
-  sdV : ∀ {s l t}, V s l → t ≤ TERMINATED → SDPost V W l t (D.doc s ≤ t) (D.seekDanger t s)
+  /-- `seek_danger t` from a valid state, for any `t` (also below the current document, as
+  `Exclude` and `BufferedUnionScorer::seek_danger` call it): the lower bound is never beyond the
+  next member -/
+  sdV : ∀ {s l t}, V s l → t ≤ TERMINATED → SDPost V W l t True (D.seekDanger t s)
   /-- `seek_danger t` from the danger zone of an earlier target `t0 ≤ t` -/
   sdW : ∀ {s t0 l t}, W s t0 l → t0 ≤ t → t ≤ TERMINATED → SDPost V W l t True (D.seekDanger t s)
 
